@@ -2,26 +2,42 @@ package engines
 
 import (
 	"fmt"
+	"iter"
 	"strconv"
 	"strings"
 
 	"github.com/bufbuild/protocompile/verifhooks"
 )
 
-// toposort: internal/toposort Sort / Sorter.Sort (C41). One Sorter is shared by the ops of a
-// case (after the first), so the deferred clearing of its scratch state is exercised too.
+// toposort: internal/toposort Sort / Sorter.Sort (C41). A case has ONE Sorter; sequences
+// (the iter.Seq values returned by Sort) can be made without being consumed, ranged over
+// several times, broken off early, and interleaved.
 //
-// op:  sort n=<n> edges=<a>b,...|-> roots=<r,...|-> limit=<k|->
-// ans: ok <nodes> | stopped <nodes> | panic yielded=<nodes> msg=<panic text, spaces as _>
+// ops:
+//
+//	sort n=<n> edges=<a>b,...|-> roots=<r,...|-> limit=<k|->   Sort + one pass at once (the first
+//	                                 op of a case via package-level toposort.Sort, later ones on the Sorter)
+//	sort make n=.. edges=.. roots=..      s.Sort(...) on the case's Sorter, not consumed -> seq <k>
+//	sort makepkg n=.. edges=.. roots=..   toposort.Sort(...) (a Sorter of its own), not consumed -> seq <k>
+//	sort range <k> <j|->                  one pass over sequence k, break after j nodes
+//	sort nest <k> <j> <k2>                a pass over k whose body, at node j, ranges k2 (same Sorter)
+//
+// ans: ok <nodes> | stopped <nodes> | panic yielded=<nodes> msg=<panic text, spaces as _> | seq <k>
 type toposortEngine struct {
-	s *verifhooks.TopoSorter
-	n int // ops executed in this case
+	s    *verifhooks.TopoSorter
+	n    int // ops executed in this case
+	seqs []tsSeq
+}
+
+type tsSeq struct {
+	seq    iter.Seq[int]
+	shared bool // made by the case's Sorter
 }
 
 func init() { Register("toposort", func() Engine { return &toposortEngine{} }) }
 
 func (e *toposortEngine) Name() string { return "toposort" }
-func (e *toposortEngine) Reset()       { e.s, e.n = verifhooks.NewTopoSorter(), 0 }
+func (e *toposortEngine) Reset()       { e.s, e.n, e.seqs = verifhooks.NewTopoSorter(), 0, nil }
 
 func tsList(ns []int) string {
 	if len(ns) == 0 {
@@ -55,52 +71,54 @@ func tsNat(s string) (int, bool) {
 	return n, true
 }
 
-func (e *toposortEngine) Exec(op string) (ans string) {
-	w := strings.Fields(op)
-	if len(w) != 5 || w[0] != "sort" {
-		return "bad-op"
+// tsGraph parses n=, edges=, roots= words.
+func tsGraph(wn, we, wr string) (adj [][]int, roots []int, ok bool) {
+	ns, ok1 := tsKV("n", wn)
+	es, ok2 := tsKV("edges", we)
+	rs, ok3 := tsKV("roots", wr)
+	n, ok4 := tsNat(ns)
+	if !(ok1 && ok2 && ok3 && ok4) {
+		return nil, nil, false
 	}
-	ns, ok1 := tsKV("n", w[1])
-	es, ok2 := tsKV("edges", w[2])
-	rs, ok3 := tsKV("roots", w[3])
-	ls, ok4 := tsKV("limit", w[4])
-	n, ok5 := tsNat(ns)
-	if !(ok1 && ok2 && ok3 && ok4 && ok5) {
-		return "bad-op"
-	}
-	adj := make([][]int, n)
+	adj = make([][]int, n)
 	if es != "-" {
 		for _, ed := range strings.Split(es, ",") {
 			a, b, ok := strings.Cut(ed, ">")
 			x, okx := tsNat(a)
 			y, oky := tsNat(b)
 			if !ok || !okx || !oky || x >= n || y >= n {
-				return "bad-op"
+				return nil, nil, false
 			}
 			adj[x] = append(adj[x], y)
 		}
 	}
-	var roots []int
 	if rs != "-" {
 		for _, r := range strings.Split(rs, ",") {
 			x, ok := tsNat(r)
 			if !ok || x >= n {
-				return "bad-op"
+				return nil, nil, false
 			}
 			roots = append(roots, x)
 		}
 	}
-	limit := -1
-	if ls != "-" {
-		l, ok := tsNat(ls)
-		if !ok || l == 0 {
-			return "bad-op"
-		}
-		limit = l
+	return adj, roots, true
+}
+
+// tsLimit parses <j|-> (j >= 1); -1 = no limit.
+func tsLimit(s string) (int, bool) {
+	if s == "-" {
+		return -1, true
 	}
-	if e.s == nil {
-		e.Reset()
+	l, ok := tsNat(s)
+	if !ok || l == 0 {
+		return 0, false
 	}
+	return l, true
+}
+
+// tsConsume ranges over seq, breaking after limit nodes (limit < 0: never). If nested is
+// non-nil it is ranged over inside the loop body at the limit-th node.
+func tsConsume(seq iter.Seq[int], limit int, nested iter.Seq[int]) (ans string) {
 	var out []int
 	stopped := false
 	defer func() {
@@ -109,16 +127,14 @@ func (e *toposortEngine) Exec(op string) (ans string) {
 			ans = "panic yielded=" + tsList(out) + " msg=" + msg
 		}
 	}()
-	// the first op of a case goes through the package-level toposort.Sort, the others
-	// re-use the case's Sorter
-	seq := e.s.Sort(roots, func(v int) []int { return adj[v] })
-	if e.n == 0 {
-		seq = verifhooks.TopoSort(roots, func(v int) []int { return adj[v] })
-	}
-	e.n++
 	for v := range seq {
 		out = append(out, v)
 		if limit >= 0 && len(out) >= limit {
+			if nested != nil {
+				for range nested {
+				}
+				return "nested-pass-did-not-panic yielded=" + tsList(out)
+			}
 			stopped = true
 			break
 		}
@@ -129,37 +145,134 @@ func (e *toposortEngine) Exec(op string) (ans string) {
 	return "ok " + tsList(out)
 }
 
+func (e *toposortEngine) Exec(op string) (ans string) {
+	if e.s == nil {
+		e.Reset()
+	}
+	w := strings.Fields(op)
+	if len(w) == 0 || w[0] != "sort" {
+		return "bad-op"
+	}
+	switch {
+	case len(w) == 5 && (w[1] == "make" || w[1] == "makepkg"):
+		adj, roots, ok := tsGraph(w[2], w[3], w[4])
+		if !ok {
+			return "bad-op"
+		}
+		children := func(v int) []int { return adj[v] }
+		if w[1] == "make" {
+			e.seqs = append(e.seqs, tsSeq{e.s.Sort(roots, children), true})
+		} else {
+			e.seqs = append(e.seqs, tsSeq{verifhooks.TopoSort(roots, children), false})
+		}
+		return "seq " + strconv.Itoa(len(e.seqs)-1)
+	case len(w) == 4 && w[1] == "range":
+		k, ok1 := tsNat(w[2])
+		limit, ok2 := tsLimit(w[3])
+		if !ok1 || !ok2 || k >= len(e.seqs) {
+			return "bad-op"
+		}
+		return tsConsume(e.seqs[k].seq, limit, nil)
+	case len(w) == 5 && w[1] == "nest":
+		k, ok1 := tsNat(w[2])
+		j, ok2 := tsLimit(w[3])
+		k2, ok3 := tsNat(w[4])
+		if !ok1 || !ok2 || !ok3 || j < 0 || k >= len(e.seqs) || k2 >= len(e.seqs) ||
+			!e.seqs[k].shared || !e.seqs[k2].shared {
+			return "bad-op"
+		}
+		return tsConsume(e.seqs[k].seq, j, e.seqs[k2].seq)
+	case len(w) == 5:
+		adj, roots, ok := tsGraph(w[1], w[2], w[3])
+		ls, ok2 := tsKV("limit", w[4])
+		if !ok || !ok2 {
+			return "bad-op"
+		}
+		limit, ok3 := tsLimit(ls)
+		if !ok3 {
+			return "bad-op"
+		}
+		children := func(v int) []int { return adj[v] }
+		// the first op of a case goes through the package-level toposort.Sort, the others
+		// re-use the case's Sorter
+		seq := e.s.Sort(roots, children)
+		if e.n == 0 {
+			seq = verifhooks.TopoSort(roots, children)
+		}
+		e.n++
+		return tsConsume(seq, limit, nil)
+	}
+	return "bad-op"
+}
+
 func (e *toposortEngine) Trivial(op, ans string) bool {
-	return strings.Contains(op, "roots=- ") || strings.Contains(op, "n=0 ")
+	return strings.Contains(op, "roots=- ") || strings.Contains(op, "n=0 ") || strings.HasPrefix(ans, "seq ")
 }
 
 func (e *toposortEngine) Class(op, ans string) string {
+	w := strings.Fields(op)
 	k, _, _ := strings.Cut(ans, " ")
+	if k == "panic" && strings.Contains(ans, "ntrantly") {
+		k = "panic-reentrant"
+	}
+	if len(w) > 1 {
+		switch w[1] {
+		case "make", "makepkg":
+			return w[1]
+		case "range":
+			if w[len(w)-1] == "-" {
+				return k + "/range"
+			}
+			return k + "/range+break"
+		case "nest":
+			return k + "/nest"
+		}
+	}
 	if strings.Contains(op, "limit=-") {
 		return k
 	}
 	return k + "+limit"
 }
 
-func tsOp(n int, edges [][2]int, roots []int, limit int) string {
+// tsInst is a graph with a root list.
+type tsInst struct {
+	n     int
+	edges [][2]int
+	roots []int
+}
+
+func tsGraphWords(in tsInst) string {
 	var sb strings.Builder
-	fmt.Fprintf(&sb, "sort n=%d edges=", n)
-	if len(edges) == 0 {
+	fmt.Fprintf(&sb, "n=%d edges=", in.n)
+	if len(in.edges) == 0 {
 		sb.WriteString("-")
 	}
-	for i, e := range edges {
+	for i, e := range in.edges {
 		if i > 0 {
 			sb.WriteByte(',')
 		}
 		fmt.Fprintf(&sb, "%d>%d", e[0], e[1])
 	}
-	sb.WriteString(" roots=" + tsList(roots) + " limit=")
-	if limit <= 0 {
-		sb.WriteString("-")
-	} else {
-		sb.WriteString(strconv.Itoa(limit))
-	}
+	sb.WriteString(" roots=" + tsList(in.roots))
 	return sb.String()
+}
+
+func tsOp(n int, edges [][2]int, roots []int, limit int) string {
+	return "sort " + tsGraphWords(tsInst{n, edges, roots}) + " limit=" + tsLim(limit)
+}
+
+func tsLim(limit int) string {
+	if limit <= 0 {
+		return "-"
+	}
+	return strconv.Itoa(limit)
+}
+
+func tsMake(in tsInst) string    { return "sort make " + tsGraphWords(in) }
+func tsMakePkg(in tsInst) string { return "sort makepkg " + tsGraphWords(in) }
+func tsRange(k, j int) string    { return "sort range " + strconv.Itoa(k) + " " + tsLim(j) }
+func tsNest(k, j, k2 int) string {
+	return "sort nest " + strconv.Itoa(k) + " " + strconv.Itoa(j) + " " + strconv.Itoa(k2)
 }
 
 // rootLists returns all root lists over n nodes of length <= maxLen (duplicates allowed).
@@ -179,36 +292,49 @@ func tsRootLists(n, maxLen int) [][]int {
 	return out
 }
 
+// tsDigraphs returns every digraph on n nodes (edge lists in canonical order).
+func tsDigraphs(n int, noSelf bool) [][][2]int {
+	var out [][][2]int
+	for mask := 0; mask < 1<<(n*n); mask++ {
+		edges := [][2]int{}
+		self := false
+		for a := 0; a < n; a++ {
+			for b := 0; b < n; b++ {
+				if mask&(1<<(a*n+b)) != 0 {
+					edges = append(edges, [2]int{a, b})
+					if a == b {
+						self = true
+					}
+				}
+			}
+		}
+		if noSelf && self {
+			continue
+		}
+		out = append(out, edges)
+	}
+	return out
+}
+
 func (e *toposortEngine) Gen(r *Rand, tier string) [][]string {
 	var ops []string
 	thorough := tier == "thorough"
 	// exhaustive: every digraph (self-loops included) on n nodes, given as a bit mask over
 	// the n*n possible edges, with every root list up to a length.
+	var small []tsInst // the instances on <= 3 nodes, re-used below for the multi-pass cases
 	exhaustive := func(n, rootLen int, noSelf bool, stride int) {
 		roots := tsRootLists(n, rootLen)
 		idx := 0
-		for mask := 0; mask < 1<<(n*n); mask++ {
-			var edges [][2]int
-			self := false
-			for a := 0; a < n; a++ {
-				for b := 0; b < n; b++ {
-					if mask&(1<<(a*n+b)) != 0 {
-						edges = append(edges, [2]int{a, b})
-						if a == b {
-							self = true
-						}
-					}
-				}
-			}
-			if noSelf && self {
-				continue
-			}
+		for _, edges := range tsDigraphs(n, noSelf) {
 			for _, rs := range roots {
 				idx++
 				if stride > 1 && idx%stride != 0 {
 					continue
 				}
 				ops = append(ops, tsOp(n, edges, rs, 0))
+				if n <= 3 && len(rs) <= 2 {
+					small = append(small, tsInst{n, edges, rs})
+				}
 			}
 		}
 	}
@@ -224,13 +350,9 @@ func (e *toposortEngine) Gen(r *Rand, tier string) [][]string {
 	}
 	// random: larger graphs, shuffled and duplicated edges, DAG-biased (edges mostly from a
 	// lower to a higher position of a random permutation), consumer limits.
-	cnt := 3000
-	if thorough {
-		cnt = 300000
-	}
-	for i := 0; i < cnt; i++ {
-		n := 1 + r.Intn(9)
-		if r.Chance(1, 10) {
+	randInst := func(maxN int) tsInst {
+		n := 1 + r.Intn(maxN)
+		if maxN > 9 && r.Chance(1, 10) {
 			n = 10 + r.Intn(15)
 		}
 		perm := make([]int, n)
@@ -273,11 +395,19 @@ func (e *toposortEngine) Gen(r *Rand, tier string) [][]string {
 		for j := 0; j < nr; j++ {
 			roots = append(roots, r.Intn(n))
 		}
+		return tsInst{n, edges, roots}
+	}
+	cnt := 3000
+	if thorough {
+		cnt = 300000
+	}
+	for i := 0; i < cnt; i++ {
+		in := randInst(10)
 		limit := 0
 		if r.Chance(1, 4) {
-			limit = 1 + r.Intn(n+1)
+			limit = 1 + r.Intn(in.n+1)
 		}
-		ops = append(ops, tsOp(n, edges, roots, limit))
+		ops = append(ops, tsOp(in.n, in.edges, in.roots, limit))
 	}
 	// group into cases sharing one Sorter (tests that scratch state is cleared, also
 	// after a panic or an early stop)
@@ -285,6 +415,156 @@ func (e *toposortEngine) Gen(r *Rand, tier string) [][]string {
 	for i := 0; i < len(ops); i += 8 {
 		j := min(i+8, len(ops))
 		cases = append(cases, ops[i:j])
+	}
+
+	// ---- sequences that are made, kept, and ranged over several times ----
+	// (a) every small instance: the same sequence ranged again, after a full pass and after
+	// passes broken off at the 1st and 2nd node.
+	for _, in := range small {
+		cases = append(cases, []string{tsMake(in), tsRange(0, 0), tsRange(0, 1), tsRange(0, 0),
+			tsRange(0, 2), tsRange(0, 0)})
+	}
+	// (b) every digraph on <= 3 nodes with every ordered pair of single roots: both sequences
+	// made first, consumed afterwards (they share nodes whenever the reachable sets meet).
+	for n := 1; n <= 3; n++ {
+		for _, edges := range tsDigraphs(n, false) {
+			for r1 := 0; r1 < n; r1++ {
+				for r2 := 0; r2 < n; r2++ {
+					a, b := tsInst{n, edges, []int{r1}}, tsInst{n, edges, []int{r2}}
+					if (r1+r2)%2 == 0 {
+						cases = append(cases, []string{tsMake(a), tsMake(b), tsRange(0, 0), tsRange(1, 0), tsRange(0, 0)})
+					} else {
+						cases = append(cases, []string{tsMake(a), tsMake(b), tsRange(1, 1), tsRange(0, 0), tsRange(1, 0)})
+					}
+				}
+			}
+		}
+	}
+	// (c) every interleaving: a pool of sequences over 4 shared nodes; for every ordered pair
+	// of them, every string of 3 passes over {seq 0, seq 1} x {full, break at 1, break at 2};
+	// makes either all up front or just before the first use.
+	diamond := [][2]int{{0, 1}, {0, 2}, {1, 3}, {2, 3}}
+	pool := []tsInst{
+		{4, diamond, []int{0}},
+		{4, diamond, []int{1}},
+		{4, diamond, []int{2, 1}},
+		{4, diamond, []int{3}},
+		{4, [][2]int{{0, 1}, {1, 2}, {2, 3}}, []int{0}},
+		{4, [][2]int{{3, 2}, {2, 1}, {2, 0}, {3, 0}}, []int{3, 0}},
+		{4, [][2]int{{0, 1}, {1, 2}, {2, 0}, {2, 3}}, []int{0}}, // cyclic: every pass panics
+	}
+	modes := []int{0, 1, 2}
+	script := func(insts []tsInst, passes [][2]int, upfront bool) []string {
+		var c []string
+		idx := make([]int, len(insts)) // sequence number of instance i, -1 = not made yet
+		for i := range idx {
+			idx[i] = -1
+		}
+		made := 0
+		mk := func(i int) {
+			if idx[i] < 0 {
+				c = append(c, tsMake(insts[i]))
+				idx[i] = made
+				made++
+			}
+		}
+		if upfront {
+			for i := range insts {
+				mk(i)
+			}
+		}
+		for _, p := range passes {
+			mk(p[0])
+			c = append(c, tsRange(idx[p[0]], p[1]))
+		}
+		return c
+	}
+	var letters2 [][2]int
+	for k := 0; k < 3; k++ {
+		for _, m := range modes {
+			if k < 2 {
+				letters2 = append(letters2, [2]int{k, m})
+			}
+		}
+	}
+	ci := 0
+	for _, a := range pool {
+		for _, b := range pool {
+			for _, p1 := range letters2 {
+				for _, p2 := range letters2 {
+					for _, p3 := range letters2 {
+						ci++
+						cases = append(cases, script([]tsInst{a, b}, [][2]int{p1, p2, p3}, ci%4 != 0))
+					}
+				}
+			}
+			// nested pass: the specified re-entrancy panic, and a clean Sorter afterwards
+			for j := 1; j <= 3; j++ {
+				cases = append(cases, []string{tsMake(a), tsMake(b), tsNest(0, j, 1), tsRange(1, 0), tsRange(0, 0)})
+			}
+			// a package-level sequence (own Sorter) kept alive next to one of the case's Sorter
+			cases = append(cases, []string{tsMake(a), tsMakePkg(b), tsRange(1, 1), tsRange(0, 0), tsRange(1, 0), tsRange(1, 0)})
+		}
+	}
+	// three live sequences: every order of one pass each x every mode, for some triples
+	triples := [][3]int{{0, 1, 3}, {0, 4, 5}, {1, 2, 3}, {4, 0, 6}, {5, 3, 2}, {2, 2, 2}}
+	if thorough {
+		triples = nil
+		for a := range pool {
+			for b := range pool {
+				for c := range pool {
+					triples = append(triples, [3]int{a, b, c})
+				}
+			}
+		}
+	}
+	perms := [][3]int{{0, 1, 2}, {0, 2, 1}, {1, 0, 2}, {1, 2, 0}, {2, 0, 1}, {2, 1, 0}}
+	for _, t := range triples {
+		insts := []tsInst{pool[t[0]], pool[t[1]], pool[t[2]]}
+		for _, pm := range perms {
+			for _, m1 := range modes {
+				for _, m2 := range modes {
+					for _, m3 := range modes {
+						ci++
+						passes := [][2]int{{pm[0], m1}, {pm[1], m2}, {pm[2], m3}, {pm[0], 0}}
+						cases = append(cases, script(insts, passes, ci%3 != 0))
+					}
+				}
+			}
+		}
+	}
+	// random scripts over random graphs (which share the node numbers 0..n-1)
+	rcnt := 300
+	if thorough {
+		rcnt = 60000
+	}
+	for i := 0; i < rcnt; i++ {
+		m := 1 + r.Intn(3)
+		var c []string
+		shared := []int{}
+		made := 0
+		for len(c) < 4+r.Intn(8) {
+			switch {
+			case made < m && (made == 0 || r.Chance(1, 3)):
+				in := randInst(7)
+				if r.Chance(1, 5) {
+					c = append(c, tsMakePkg(in))
+				} else {
+					c = append(c, tsMake(in))
+					shared = append(shared, made)
+				}
+				made++
+			case len(shared) >= 1 && r.Chance(1, 8):
+				c = append(c, tsNest(Pick(r, shared), 1+r.Intn(3), Pick(r, shared)))
+			default:
+				j := 0
+				if r.Chance(1, 2) {
+					j = 1 + r.Intn(4)
+				}
+				c = append(c, tsRange(r.Intn(made), j))
+			}
+		}
+		cases = append(cases, c)
 	}
 	return cases
 }
